@@ -78,9 +78,17 @@ class UpgradedAnnotation(metaclass=abc.ABCMeta):
             return EmptyAnnotation
         return _PreEvaluatedAnnotation(value)
 
+    def _unevaluated_key(self):
+        return (id(self),)
+
     def __eq__(self, other):
         if isinstance(other, UpgradedAnnotation):
-            return self.source_value() == other.source_value()
+            try:
+                return self.source_value() == other.source_value()
+            except Exception:
+                # an annotation that cannot be evaluated has no value to compare:
+                # it only equals the same spelling in the same globals
+                return self._unevaluated_key() == other._unevaluated_key()
         return False
 
 
@@ -110,6 +118,9 @@ class _PostponedAnnotation(UpgradedAnnotation):
 
     def source_value(self):
         return eval(self._raw_annotation, self._function.__globals__, {})
+
+    def _unevaluated_key(self):
+        return (self._raw_annotation, id(self._function.__globals__))
 
 
 @attr.define(eq=False)
